@@ -10,7 +10,7 @@ from vmon.oracle.util import deep_diff
 PROPERTY = "C12"
 RULE = ("Generated structures (1-7 atoms, all four term kinds incl. impropers, tables, extra columns, unique atom ids) "
         "in orthorhombic, LAMMPS-triclinic (all tilt signs) and arbitrarily rotated cells, replicated by EVERY factor "
-        "triple in {1..F}^3 (F=3 quick, 4 thorough). Oracle: every original id appears exactly once per image offset "
+        "triple in {1..F}^3 (F=3 quick, 5 thorough). Oracle: every original id appears exactly once per image offset "
         "i*A+j*B+k*C with identical resolved type data, charge, group; cell rows a*A,b*B,c*C; every term copied within "
         "each image with its resolved type and extras; tables unchanged; input object deep-equal to its snapshot; "
         "(1,1,1) equal to a copy. Non-trivial: unequal factors on a non-orthorhombic cell or a structure with impropers; "
@@ -27,7 +27,7 @@ def exhaustive(tier):
 
 def cases(tier, seed):
     rng = np.random.default_rng([12, seed])
-    F, per = (3, 2) if tier == "quick" else (4, 8)
+    F, per = (3, 2) if tier == "quick" else (5, 24)
     out = []
     for cellkind in ("ortho", "tri", "rotated"):
         for j in range(per):
@@ -149,7 +149,7 @@ def run_case(case, ctx):
 
 def requirements(stats, tier):
     need = []
-    F = 3 if tier == "quick" else 4
+    F = 3 if tier == "quick" else 5
     if stats.nseen("dims") < F ** 3:
         need.append("only %d of %d factor triples observed" % (stats.nseen("dims"), F ** 3))
     if stats.nseen("cell_kind") < 3:
